@@ -3,7 +3,8 @@
 //! protocol event recorded by the `sched_std` shim.
 //!
 //! stdin : one case per line,
-//!         `script=2,1 panics=1.0,2.1 sched=random|pct3|dfs seed=123 iters=500 [spur=K|inf]`
+//!         `script=2,1 panics=1.0,2.1 [bombs=1.0] sched=random|pct3|dfs seed=123 iters=500 [spur=K|inf]`
+//!         (`bombs`: calls that panic with a payload whose own `Drop` panics)
 //!         (`spur`: spurious park wake-ups allowed per schedule; default `inf`,
 //!         for `dfs` 1)
 //! stdout: one line per case, the distinct traces joined by ` ## `, each
@@ -43,10 +44,22 @@ use util::thread::pool::ThreadPool;
 struct Ctx {
     b: usize,
     panics: Arc<HashSet<(usize, usize)>>,
+    bombs: Arc<HashSet<(usize, usize)>>,
+}
+
+/// Panic payload whose destructor panics (without going through the panic
+/// hook).  pool.rs keeps the caller's caught payload alive until all workers
+/// are done precisely because of such payloads.
+struct Bomb;
+
+impl Drop for Bomb {
+    fn drop(&mut self) {
+        std::panic::resume_unwind(Box::new("bomb payload dropped"));
+    }
 }
 
 /// One shuttle execution: a scripted sequence of broadcasts on one pool.
-fn body(script: &[usize], panics: &Arc<HashSet<(usize, usize)>>) {
+fn body(script: &[usize], panics: &Arc<HashSet<(usize, usize)>>, bombs: &Arc<HashSet<(usize, usize)>>) {
     sched_std::reset(); // registers the main task as thread 0
     let pool = ThreadPool::new();
 
@@ -58,7 +71,7 @@ fn body(script: &[usize], panics: &Arc<HashSet<(usize, usize)>>) {
         // outside the buffer.
         let mut v: Vec<Option<usize>> = Vec::with_capacity(n + 16);
 
-        let ctx: &'static Ctx = Box::leak(Box::new(Ctx { b, panics: Arc::clone(panics) }));
+        let ctx: &'static Ctx = Box::leak(Box::new(Ctx { b, panics: Arc::clone(panics), bombs: Arc::clone(bombs) }));
         let f = move |i: usize| -> usize {
             // `ctx` is read out of the task block (the closure lives there)
             // BEFORE the scheduling point; the window between a worker's
@@ -71,8 +84,12 @@ fn body(script: &[usize], panics: &Arc<HashSet<(usize, usize)>>) {
                 log(format!("C.{}.{}.x", sched_std::tid(), i));
                 sched_std::block_forever();
             }
-            let p = ctx.panics.contains(&(ctx.b, i));
+            let bomb = ctx.bombs.contains(&(ctx.b, i));
+            let p = bomb || ctx.panics.contains(&(ctx.b, i));
             log(format!("C.{}.{}.{}", sched_std::tid(), i, p as u8));
+            if bomb {
+                std::panic::resume_unwind(Box::new(Bomb));
+            }
             if p {
                 // No panic hook, no message.
                 std::panic::resume_unwind(Box::new(()));
@@ -82,7 +99,10 @@ fn body(script: &[usize], panics: &Arc<HashSet<(usize, usize)>>) {
         // `par_extend` stores `{ ptr, f }` behind the header of `TaskShared`.
         sched_std::set_closure_words(1 + (std::mem::size_of_val(&f) + 7) / 8);
 
-        pool.par_extend(&mut v, n, f);
+        // A panic may escape `broadcast` (a caught payload whose destructor
+        // panics): it is an outcome like any other, the trace goes on and the
+        // workers run on.  `Z` = left by an escaping panic, `T` = returned.
+        let escaped = catch_unwind(AssertUnwindSafe(|| pool.par_extend(&mut v, n, f))).is_err();
 
         let slots: Vec<String> = v
             .iter()
@@ -91,7 +111,7 @@ fn body(script: &[usize], panics: &Arc<HashSet<(usize, usize)>>) {
                 Some(x) => x.to_string(),
             })
             .collect();
-        log(format!("T.{}", slots.join(",")));
+        log(format!("{}.{}", if escaped { "Z" } else { "T" }, slots.join(",")));
 
         // A late write of a mutant must hit live memory.
         std::mem::forget(v);
@@ -164,6 +184,7 @@ enum Sched {
 struct Case {
     script: Vec<usize>,
     panics: HashSet<(usize, usize)>,
+    bombs: HashSet<(usize, usize)>,
     sched: Sched,
     seed: u64,
     iters: usize,
@@ -175,6 +196,7 @@ fn parse(line: &str) -> Case {
     let mut c = Case {
         script: Vec::new(),
         panics: HashSet::new(),
+        bombs: HashSet::new(),
         sched: Sched::Random,
         seed: 0,
         iters: 100,
@@ -190,15 +212,20 @@ fn parse(line: &str) -> Case {
                     .map(|s| s.parse().expect("script"))
                     .collect()
             }
-            "panics" => {
-                c.panics = v
+            "panics" | "bombs" => {
+                let set: HashSet<(usize, usize)> = v
                     .split(',')
                     .filter(|s| !s.is_empty())
                     .map(|s| {
                         let (b, i) = s.split_once('.').expect("panics b.i");
                         (b.parse().expect("b"), i.parse().expect("i"))
                     })
-                    .collect()
+                    .collect();
+                if k == "bombs" {
+                    c.bombs = set;
+                } else {
+                    c.panics = set;
+                }
             }
             "sched" => {
                 c.sched = if v == "random" {
@@ -257,6 +284,7 @@ fn run_chunk(
     iters: usize,
     script: Arc<Vec<usize>>,
     panics: Arc<HashSet<(usize, usize)>>,
+    bombs: Arc<HashSet<(usize, usize)>>,
 ) -> Result<usize, String> {
     let h = std::thread::Builder::new()
         .name("hx-sched-runner".into())
@@ -269,7 +297,7 @@ fn run_chunk(
                     // here, so put the silent hook back on top of it.
                     static SILENCE: std::sync::Once = std::sync::Once::new();
                     SILENCE.call_once(|| std::panic::set_hook(Box::new(|_| {})));
-                    body(&script, &panics)
+                    body(&script, &panics, &bombs)
                 };
                 match sched {
                     Sched::Random => {
@@ -299,6 +327,7 @@ fn replay(line: &str) -> String {
     let case = parse(line);
     let script = Arc::new(case.script);
     let panics = Arc::new(case.panics);
+    let bombs = Arc::new(case.bombs);
 
     // Default: unbounded spurious wake-ups for the sampling schedulers (as in
     // shuttle), one per execution for the exhaustive one.
@@ -316,7 +345,7 @@ fn replay(line: &str) -> String {
         // the same prefix and the first schedule of PCT hardly depends on the
         // seed, so those two stop at their first failure.
         let seed = case.seed.wrapping_add(all.len() as u64);
-        let r = run_chunk(case.sched, spur, seed, remaining, Arc::clone(&script), Arc::clone(&panics));
+        let r = run_chunk(case.sched, spur, seed, remaining, Arc::clone(&script), Arc::clone(&panics), Arc::clone(&bombs));
         let failure = r.as_ref().err().map(|m| classify(m));
         sched_std::finish(failure);
         let mut new = sched_std::take_finished();
